@@ -124,8 +124,14 @@ class Source:
 def publicize_fields(frag, stats):
     """visibility is irrelevant to verification, but Verus treats a datatype with a restricted field as opaque in public specs:
     every named field of an extracted struct gets `pub`"""
-    m = match_table(frag)
     kw = [i for i, t in enumerate(frag) if t.s in ("struct", "enum")]
+    if kw:
+        # the type itself: private / pub(crate) -> pub
+        k0 = kw[0]
+        if k0 == 0 or frag[k0 - 1].s not in ("pub", ")"):
+            frag[k0:k0] = T("pub"); stats["R8.pub_type"] = 1
+            kw = [i + 1 for i in kw]
+    m = match_table(frag)
     if not kw or frag[kw[0]].s != "struct": return frag
     ob = None
     for i in range(kw[0], len(frag)):
